@@ -67,6 +67,13 @@ def enumeration():
                             for which in (["bak", "out"] if backup == "ok" else ["out"]):
                                 for kind in ("open", "write", "close"):
                                     out.append(dict(b, ops=BASE_OPS, fault=[kind, which], before=pre))
+                if fmt == "ssc":
+                    for output in (False, True):
+                        for backup in (None, "ok"):
+                            b = base_case(fmt, "utf-8", fs, output, backup)
+                            b["data"] = "#VERSION:0.83;\n#TITLE:t;\n#NOTEDATA:;\n#STEPSTYPE:dance-single;\n#CREDIT:c;\n".encode("utf-8").hex()
+                            out.append(dict(b, ops=[]))
+                            out.append(dict(b, ops=BASE_OPS, fault=["open", "out"]))
                 # unencodable character for each detected encoding
                 for codec in F.DEFAULT_ENCODINGS:
                     for output in (False, True):
@@ -95,6 +102,10 @@ def gen(rng, i, tier):
         c["ops"] = c["ops"] + [["badvalue", "GENRE"]]
     if rng.random() < 0.3:
         c["before"] = rng.choice(PRE)
+    if c["fmt"] == "ssc" and rng.random() < 0.12:
+        # an input whose own chart cannot be serialised as it stands: a NOTEDATA section without note data
+        c["data"] = ("#VERSION:0.83;\n#TITLE:t;\n#BPMS:0.000=120.000;\n#NOTEDATA:;\n#STEPSTYPE:dance-single;\n#CREDIT:c;\n"
+                     + rng.choice(["", "#NOTEDATA:;\n#STEPSTYPE:dance-double;\n#NOTES:\n0000\n;\n"])).encode("utf-8").hex()
     return c
 
 
